@@ -132,22 +132,22 @@ impl Model {
                     })
             }
             Op::CountOnes { row, a, b } | Op::RowIter { row, a, b } => {
-                // The dense count_ones handles the full width (it never touches the word after the
-                // row); the dense get_row_iter does not (end_col = w with w % 64 == 0 slices one word
-                // past the last row: undocumented, excluded - see DESIGN). The sparse type rejects
-                // anything beyond the first dense column.
-                let lim = if dense_impl {
-                    if matches!(op, Op::CountOnes { .. }) {
-                        self.w
-                    } else {
-                        self.w.saturating_sub(1)
-                    }
-                } else {
-                    self.w - self.dense.max(1).min(self.w)
-                };
-                // start_col must name a column: count_ones(last_row, w, w) indexes one word past the
-                // matrix when w % 64 == 0 on the unchanged tree (same undocumented corner)
-                row < self.h && a <= b && b <= lim && (a < self.w || !dense_impl) && self.defined(row, a, b)
+                // The sparse type rejects anything beyond the first dense column. The dense type
+                // serves every range up to the full width - except in one corner where the unchanged
+                // tree indexes one word past the matrix: width % 64 == 0, the last row, and a resize
+                // has trimmed the allocation slack that DenseBinaryMatrix::new leaves; there
+                // get_row_iter(.., width) and count_ones(width, width) panic (undocumented corner,
+                // reachable by no client, excluded - see DESIGN section 10).
+                if row >= self.h || a > b {
+                    return false;
+                }
+                if !dense_impl {
+                    return b <= self.w - self.dense.max(1).min(self.w) && self.defined(row, a, b);
+                }
+                let corner = self.resized && self.w % 64 == 0 && row == self.h - 1;
+                let is_count = matches!(op, Op::CountOnes { .. });
+                let ok = if is_count { b <= self.w && (a < self.w || !corner) } else { b <= self.w && (b < self.w || !corner) };
+                ok && self.defined(row, a, b)
             }
             Op::OnesInCol { col, a, b } => {
                 if dense_impl {
@@ -668,6 +668,17 @@ pub fn generate(seed: u64) -> History {
         push!(&mut md, &mut ops, Op::Sweep);
     }
 
+    // a client may permute rows (and sparse columns) before it builds the column index
+    if r.chance(1, 3) {
+        for _ in 0..r.urange(1, 6) {
+            let (i, j) = (r.usize_below(md.h), r.usize_below(md.h));
+            push!(&mut md, &mut ops, Op::SwapRows { i, j });
+        }
+        if fd0 > 1 && r.chance(1, 2) {
+            let (i, j) = (r.usize_below(fd0), r.usize_below(fd0));
+            push!(&mut md, &mut ops, Op::SwapCols { i, j, hint: 0 });
+        }
+    }
     let never_index = r.chance(1, 10);
     let nops = 10 + r.usize_below(70);
     if !never_index {
